@@ -227,6 +227,7 @@ def main(argv=None):
     asm = set(COMMON) | set(P.get("assumptions", []))
     kf = [k for k in known_findings() if k.get("property") == a.pid and k.get("status", "open") == "open"]
     kf_hit = set()
+    kf_obl = set()
     for r in results:
         if r["error"]:
             engine_err.append(f"{r['target']}: {r['error']}")
@@ -270,6 +271,7 @@ def main(argv=None):
                 break
         if hit is not None:
             kf_hit.add(hit["id"])
+            kf_obl.add(ob["name"])
             continue
         nviol += 1
         rel = os.path.relpath(path, HERE)
@@ -296,7 +298,8 @@ def main(argv=None):
     ev = {
         "property_id": a.pid, "tier": a.tier, "seed": seed, "level": level,
         "coverage": {
-            "obligations": n_obl, "discharged": n_dis,
+            "obligations": n_obl - sum(1 for r in results for ob in r["obligations"] if ob["name"] in kf_obl), "discharged": n_dis,
+            "known_finding_obligations": sorted(kf_obl),
             "checker_cmd": f"python3-vt -m pyvc.prop {a.pid} --tier {a.tier}",
             "trusted_base": sorted(asm),
             "functions_under_contract": funcs,
